@@ -77,6 +77,31 @@ def window_family(seed, nbases, path):
     return cid
 
 
+CHRONO_MIN, CHRONO_MAX = -8334601228800000, 8210266876799999
+
+
+def dates_family(seed, nrandom, path):
+    """`dates t=…`: the real date_utils::date / date_next_day against Model/Date.lean on the boundaries of chrono's
+    representable range, day boundaries around 0 and around today, i64 extremes, and random dates of every
+    magnitude (negative ones included). One case, no write: the state part of every answer stays empty."""
+    import random
+    rnd = random.Random(104729 * seed + 11)
+    ts = set()
+    for b in (CHRONO_MIN, CHRONO_MAX, CHRONO_MAX - DAY, CHRONO_MAX - DAY + 1, CHRONO_MAX - 2 * DAY, 0, DAY, -DAY,
+              1700000000000, 1700006400000, -(2 ** 63), 2 ** 63 - 1, 253402300800000, -62135596800000):
+        for d in (-DAY - 1, -DAY, -2, -1, 0, 1, 2, DAY - 1, DAY, DAY + 1):
+            if -(2 ** 63) <= b + d < 2 ** 63: ts.add(b + d)
+    for _ in range(nrandom):
+        mag = rnd.choice([10, 20, 30, 37, 40, 45, 50, 53, 54, 60, 63])
+        t = rnd.randrange(-(2 ** mag), 2 ** mag)
+        ts.add(t); ts.add(t - t % DAY); ts.add(t - t % DAY - 1)
+    ts = sorted(ts)
+    rnd.shuffle(ts)
+    with open(path, "w") as f:
+        f.write("case id=0 peers=1 rights=a\n" + "\n".join("dates t=%d" % t for t in ts) + "\n")
+    return len(ts)
+
+
 def unrefs_family(seed, ncases, path):
     """one deletion query with several reference-deletion entries (`unrefs`): source rows last modified on different
     days, some entries naming a reference that does not exist (never did, or was deleted before); every touched day
@@ -179,6 +204,9 @@ class C09(Cfg):
         path = os.path.join(work, "unrefs.ops")
         n = unrefs_family(seed, 40 if tier == "quick" else 600, path)
         res.append(("multi-entry reference deletions seed=%d cases=%d" % (seed, n), path, False))
+        path = os.path.join(work, "dates.ops")
+        n = dates_family(seed, 300 if tier == "quick" else 20000, path)
+        res.append(("day arithmetic (date_utils) seed=%d dates=%d" % (seed, n), path, False))
         plan = [("C09", 160, 22)] if tier == "quick" else [("C09", 4000, 26), ("C03", 300, 22)]
         for prop, n, ln in plan:
             path = os.path.join(work, "hist_%s.ops" % prop)
